@@ -6,9 +6,13 @@ From Soy Require Import Model.Bytes Generated.Tables Model.MsgParts Proofs.Sourc
 Import ListNotations.
 Open Scope N_scope.
 
+(* Stated through go_res and proved along the MODEL's recursion, one msgstr at a time with its emptiness decided on the
+   model's side: the source may test `s != ""`, `len(s) > 0`, range over values or over indices, return early or keep
+   a flag. *)
 Lemma is_translated_matches_source (strs : list bstr) :
-  is_translated strs = src_pomsg_translated strs.
+  go_res (src_pomsg_translated strs) = Some (is_translated strs).
 Proof.
-  unfold is_translated, src_pomsg_translated. rewrite find_existsb.
-  apply st_existsb_ext. intros a. rewrite bstr_eqb_nil_r. destruct a; reflexivity.
+  unfold go_res, is_translated, src_pomsg_translated. cbv zeta.
+  induction strs as [|a l IH]; [reflexivity|].
+  destruct a as [|c r]; simpl; unfold go_len; cbn [length]; st_decide_ifs; cbn [negb]; [exact IH|reflexivity].
 Qed.
